@@ -18,9 +18,27 @@ func NewStructAccessor(object interface{}) *StructAccessor {
 	}
 }
 
+// field returns the struct field identified by key. The returned value is
+// invalid if there is no such field, or if it would be promoted from an
+// embedded struct pointer that is nil.
+func (sa *StructAccessor) field(key string) reflect.Value {
+	if sa.object.Kind() != reflect.Struct {
+		return reflect.Value{}
+	}
+	structField, ok := sa.object.Type().FieldByName(key)
+	if !ok {
+		return reflect.Value{}
+	}
+	field, err := sa.object.FieldByIndexErr(structField.Index)
+	if err != nil {
+		return reflect.Value{}
+	}
+	return field
+}
+
 // Set sets the value identified by key.
 func (sa *StructAccessor) Set(key string, value interface{}) error {
-	field := sa.object.FieldByName(key)
+	field := sa.field(key)
 	if !field.IsValid() {
 		return errors.New("struct field does not exist")
 	}
@@ -88,7 +106,7 @@ func (sa *StructAccessor) Set(key string, value interface{}) error {
 
 // Get returns the value found by the given json key and whether it could be successfully extracted.
 func (sa *StructAccessor) Get(key string) (value interface{}, ok bool) {
-	field := sa.object.FieldByName(key)
+	field := sa.field(key)
 	if !field.IsValid() || !field.CanInterface() {
 		return nil, false
 	}
@@ -97,7 +115,7 @@ func (sa *StructAccessor) Get(key string) (value interface{}, ok bool) {
 
 // GetString returns the string found by the given json key and whether it could be successfully extracted.
 func (sa *StructAccessor) GetString(key string) (value string, ok bool) {
-	field := sa.object.FieldByName(key)
+	field := sa.field(key)
 	if !field.IsValid() || field.Kind() != reflect.String {
 		return "", false
 	}
@@ -106,7 +124,7 @@ func (sa *StructAccessor) GetString(key string) (value string, ok bool) {
 
 // GetStringArray returns the []string found by the given json key and whether it could be successfully extracted.
 func (sa *StructAccessor) GetStringArray(key string) (value []string, ok bool) {
-	field := sa.object.FieldByName(key)
+	field := sa.field(key)
 	if !field.IsValid() || field.Kind() != reflect.Slice || !field.CanInterface() {
 		return nil, false
 	}
@@ -120,7 +138,7 @@ func (sa *StructAccessor) GetStringArray(key string) (value []string, ok bool) {
 
 // GetInt returns the int found by the given json key and whether it could be successfully extracted.
 func (sa *StructAccessor) GetInt(key string) (value int64, ok bool) {
-	field := sa.object.FieldByName(key)
+	field := sa.field(key)
 	if !field.IsValid() {
 		return 0, false
 	}
@@ -136,7 +154,7 @@ func (sa *StructAccessor) GetInt(key string) (value int64, ok bool) {
 
 // GetFloat returns the float found by the given json key and whether it could be successfully extracted.
 func (sa *StructAccessor) GetFloat(key string) (value float64, ok bool) {
-	field := sa.object.FieldByName(key)
+	field := sa.field(key)
 	if !field.IsValid() {
 		return 0, false
 	}
@@ -150,7 +168,7 @@ func (sa *StructAccessor) GetFloat(key string) (value float64, ok bool) {
 
 // GetBool returns the bool found by the given json key and whether it could be successfully extracted.
 func (sa *StructAccessor) GetBool(key string) (value bool, ok bool) {
-	field := sa.object.FieldByName(key)
+	field := sa.field(key)
 	if !field.IsValid() || field.Kind() != reflect.Bool {
 		return false, false
 	}
@@ -159,7 +177,7 @@ func (sa *StructAccessor) GetBool(key string) (value bool, ok bool) {
 
 // Exists returns the whether the given key exists.
 func (sa *StructAccessor) Exists(key string) bool {
-	field := sa.object.FieldByName(key)
+	field := sa.field(key)
 	return field.IsValid()
 }
 
